@@ -297,6 +297,43 @@ def shipped(ctx, part, parts):
             continue
         obj = QAPObjective(inst)
         x = Permutations.standard(n).create()
+        if n <= 20:
+            # good assignments by a plain 2-swap descent of my own: a shipped
+            # lower bound (table of best-known values) above a value that an
+            # assignment actually attains is wrong
+            Fa, Da = np.array(F, np.int64), np.array(D, np.int64)
+
+            def val(p):
+                return int((Fa * Da[np.ix_(p, p)]).sum())
+            best, bestp = None, None
+            for _ in range(600 if n <= 12 else 150 if n <= 16 else 60):
+                p = ctx.rng.permutation(n)
+                v = val(p)
+                improved = True
+                while improved:
+                    improved = False
+                    for a in range(n - 1):
+                        for b in range(a + 1, n):
+                            p[a], p[b] = p[b], p[a]
+                            w = val(p)
+                            if w < v:
+                                v = w
+                                improved = True
+                            else:
+                                p[a], p[b] = p[b], p[a]
+                if best is None or v < best:
+                    best, bestp = v, [int(q) for q in p]
+            ctx.count("shipped_qaplib_descents")
+            x[:] = bestp
+            got = obj.evaluate(x)
+            if got != best or not obj.lower_bound() <= got \
+                    <= obj.upper_bound():
+                ctx.violation(
+                    "shipped-qaplib-value-outside-bounds",
+                    f"{name}: assignment {bestp} has flow-distance sum "
+                    f"{best} (objective says {got}), declared bounds "
+                    f"[{obj.lower_bound()}, {obj.upper_bound()}]", case)
+                continue
         for _ in range(3):
             p = [int(v) for v in ctx.rng.permutation(n)]
             x[:] = p
@@ -351,6 +388,10 @@ def run_shard(ctx, args):
             inst = Instance(relayout(np.array(D, dd), ld),
                             relayout(np.array(F, df), lf),
                             name=(f"rnd{n}" if rng.integers(2) else None))
+            # (no "caller re-uses its buffers" step here: unlike the TSP /
+            # TTP / bin-packing instances, qap.Instance documents no copy
+            # and deliberately keeps an array that already has the storage
+            # type)
             judge_instance(ctx, inst, F, D, case, tag, all_perms)
         if it % 150 == 0:
             ctx.sample({"n": n, "tag": tag, "F": F[:3], "D": D[:3],
